@@ -376,6 +376,8 @@ func (e *Env) open(first bool) error {
 		return err
 	}
 	db.DB().SetMaxOpenConns(1)
+	// the single connection skips fsync: the harness never crashes the operating system, and restarts reopen the file
+	_, _ = db.DB().Exec("PRAGMA synchronous=OFF")
 	e.DB = db
 	if first {
 		mk, ok := Key(e.Spec, "mfg"), Key(e.Spec, "owner")
@@ -429,8 +431,8 @@ func (e *Env) open(first bool) error {
 	e.TO1S = &fdo.TO1Server{Session: db, RVBlobs: st}
 	e.TO2S = &fdo.TO2Server{
 		Session: db, Vouchers: st, OwnerKeys: db, VouchersForExtension: st,
-		Modules: &modSM{e: e, cur: map[string]*modState{}},
-		RvInfo:  func(context.Context, fdo.Voucher) ([][]protocol.RvInstruction, error) { return e.rvInfo(), nil },
+		Modules:         &modSM{e: e, cur: map[string]*modState{}},
+		RvInfo:          func(context.Context, fdo.Voucher) ([][]protocol.RvInstruction, error) { return e.rvInfo(), nil },
 		ReuseCredential: func(context.Context, fdo.Voucher) (bool, error) { return e.Reuse, nil },
 		MaxDeviceServiceInfoSize: func(context.Context, fdo.Voucher) (uint16, error) {
 			if e.OwnerMTU == 0 {
@@ -525,8 +527,8 @@ func DefaultKex(spec KeySpec) kex.Suite {
 
 func (d *Device) TO2Config(suite kex.Suite, cipher kex.CipherSuiteID) fdo.TO2Config {
 	return fdo.TO2Config{Cred: *d.Cred, HmacSha256: hmac.New(sha256.New, d.Secret), HmacSha384: hmac.New(sha512.New384, d.Secret), Key: d.Key,
-		PSS:    d.Spec.Type == protocol.RsaPssKeyType,
-		Devmod: serviceinfo.Devmod{Os: "linux", Arch: "amd64", Version: "1", Device: "verif", FileSep: "/", Bin: "amd64"},
+		PSS:         d.Spec.Type == protocol.RsaPssKeyType,
+		Devmod:      serviceinfo.Devmod{Os: "linux", Arch: "amd64", Version: "1", Device: "verif", FileSep: "/", Bin: "amd64"},
 		KeyExchange: suite, CipherSuite: cipher}
 }
 
